@@ -94,7 +94,10 @@ fn spawn_co(w: &Arc<World>, i: usize) -> JoinHandle<i64> {
 }
 
 /// wait for a child the way the program says and check what is reported
-fn collect(w: &World, who: &str, child: usize, h: JoinHandle<i64>) {
+fn collect(w: &World, who: &str, who_idx: Option<usize>, child: usize, h: JoinHandle<i64>) {
+    if let Some(ix) = who_idx {
+        w.states.enter(ix, child, JOIN);
+    }
     let how = w.case.actors[child].role as u32;
     let fin = |w: &World| w.finished[child].load(Ordering::SeqCst) == 1;
     let cancelled = how == W_CANCEL;
@@ -106,12 +109,8 @@ fn collect(w: &World, who: &str, child: usize, h: JoinHandle<i64>) {
             }
         }
         W_POLL => {
-            let mut backoff = 500u64;
-            while !h.is_done() {
-                sleep_ns(backoff);
-                backoff = (backoff * 2).min(200_000);
-            }
-            if !fin(w) {
+            let done = poll_until(|| h.is_done(), 10_000_000_000);
+            if done && !fin(w) {
                 w.early.lock().unwrap().push(format!("is_done() of {child} true before the closure finished ({who})"));
             }
         }
@@ -175,7 +174,7 @@ fn body(w: &Arc<World>, i: usize) -> i64 {
     }
     w.states.enter(i, ops.len(), JOIN);
     for (c, h) in kids {
-        collect(w, &format!("coroutine {i}"), c, h);
+        collect(w, &format!("coroutine {i}"), None, c, h);
     }
     // the last action of the closure
     w.finished[i].store(1, Ordering::SeqCst);
@@ -195,6 +194,11 @@ pub fn run(case: &Case) -> Outcome {
         B_ID => "+id",
         _ => "",
     })).collect();
+    let mut desc = desc;
+    desc.push("main-thread".to_string());
+    for _ in 0..case.cfg(0) {
+        desc.push("user-thread".to_string());
+    }
     let states = States::install(desc, opname);
     let w = Arc::new(World {
         case: case.clone(),
@@ -218,15 +222,17 @@ pub fn run(case: &Case) -> Outcome {
         ths.push(sched::vspawn("spawner", move || {
             let hs: Vec<(usize, JoinHandle<i64>)> = mine.iter().map(|&i| (i, spawn_co(&w2, i))).collect();
             for (i, h) in hs {
-                collect(&w2, "user thread", i, h);
+                collect(&w2, "user thread", Some(w2.case.actors.len() + 1 + t), i, h);
             }
+            w2.states.done(w2.case.actors.len() + 1 + t);
         }));
     }
     let mine: Vec<usize> = (0..n).filter(|&i| case.actors[i].ops[0].1 == 0).collect();
     let hs: Vec<(usize, JoinHandle<i64>)> = mine.iter().map(|&i| (i, spawn_co(&w, i))).collect();
     for (i, h) in hs {
-        collect(&w, "main thread", i, h);
+        collect(&w, "main thread", Some(n), i, h);
     }
+    w.states.done(n);
     for t in ths {
         if t.join().is_err() {
             out.fail("spawner-thread-panicked", String::new());
